@@ -14,7 +14,8 @@ Num(n) == [k |-> "num", n |-> n]
 Sum(t) == [k |-> "call", f |-> "SUM", args |-> <<t>>]
 JoinT2 == [m |-> "join", item |-> "T2", how |-> "", kind |-> "on", crit |-> Cmp(Fld("T1", "a"), Fld("T2", "a")), cols |-> <<>>]
 
-SelectPool == << [m |-> "from_", src |-> "T1"], [m |-> "select", terms |-> <<Fld("T1", "a")>>],
+SelectPool == << [m |-> "from_", src |-> "T5"], [m |-> "into", src |-> "T2"], [m |-> "orderbystr", name |-> "alb"], [m |-> "groupbystr", name |-> "alb"],
+                 [m |-> "select", terms |-> <<Fld("T1", "a")>>],
                  [m |-> "select", terms |-> <<FldA("T1", "b", "alb")>>],
                  [m |-> "where", crit |-> Cmp(Fld("T1", "a"), Num("1"))], [m |-> "where", crit |-> Cmp(Fld("T1", "b"), Num("2"))],
                  [m |-> "groupby", terms |-> <<Fld("T1", "a")>>], [m |-> "having", crit |-> Gt(Sum(Fld("T1", "b")), Num("3"))],
@@ -37,19 +38,19 @@ Init == perm = <<>>
 Next == /\ Len(perm) < MaxCalls
         /\ \E i \in DOMAIN Pool : (\A k \in DOMAIN perm : perm[k] # i) /\ perm' = Append(perm, i)
 \* INSERT and UPDATE families start from the entry point that makes them such (Query.into / Query.update)
-Prefix == CASE Fam = "insert" -> << [m |-> "into", src |-> "T1"] >> [] Fam = "update" -> << [m |-> "update", src |-> "T1"] >> [] OTHER -> <<>>
+Prefix == CASE Fam = "select" -> << [m |-> "from_", src |-> "T1"] >> [] Fam = "insert" -> << [m |-> "into", src |-> "T1"] >> [] Fam = "update" -> << [m |-> "update", src |-> "T1"] >> [] OTHER -> <<>>
 Calls == Prefix \o [k \in DOMAIN perm |-> Pool[perm[k]]]
 Emit == PrintT("P " \o ToJson([perm |-> perm, calls |-> Calls]))
 
 \* design-level confluence: two adjacent calls that address different clauses and do not read what the other writes commute in the spec
 Reads(c) == CASE c.m = "where" -> {"oc", "from", "joins", "upd"} [] c.m = "into" -> {"sel"} [] c.m \in {"update", "delete"} -> {"sel", "upd", "del"}
               [] c.m = "join" -> {"from", "joins", "upd", "ctes"} [] c.m \in {"columns", "insert", "replace", "on_conflict"} -> {"ins"}
-              [] c.m = "do_update" -> {"oc"} [] c.m = "do_nothing" -> {"oc"} [] c.m = "select" -> {"star"} [] OTHER -> {}
+              [] c.m = "do_update" -> {"oc"} [] c.m = "do_nothing" -> {"oc"} [] c.m = "select" -> {"star"} [] c.m \in {"orderbystr", "groupbystr", "selectstr"} -> {"from"} [] OTHER -> {}
 Writes(c) == CASE c.m = "from_" -> {"from"} [] c.m = "select" -> {"sel", "star"} [] c.m = "where" -> {"whr", "foreign", "oc"} [] c.m = "join" -> {"joins"}
                [] c.m = "into" -> {"ins", "selinto"} [] c.m = "update" -> {"upd"} [] c.m = "delete" -> {"del"} [] c.m = "on_conflict" -> {"oc"}
                [] c.m \in {"do_update", "do_nothing"} -> {"oc"} [] c.m \in {"insert", "replace"} -> {"vals"} [] c.m = "columns" -> {"cols"}
                [] c.m = "set" -> {"sets"} [] c.m = "limit" -> {"lim"} [] c.m = "offset" -> {"off"} [] c.m = "groupby" -> {"grp"}
-               [] c.m = "having" -> {"hav"} [] c.m = "orderby" -> {"ord"} [] OTHER -> {c.m}
+               [] c.m = "having" -> {"hav"} [] c.m \in {"orderby", "orderbystr"} -> {"ord"} [] c.m = "groupbystr" -> {"grp"} [] OTHER -> {c.m}
 Independent(c1, c2) == Reads(c1) \cap Writes(c2) = {} /\ Reads(c2) \cap Writes(c1) = {} /\ Writes(c1) \cap Writes(c2) = {}
 Confluent == \A k \in 1..(Len(Calls) - 1) :
                 LET pre == Fold(Empty, SubSeq(Calls, 1, k - 1))  c1 == Calls[k]  c2 == Calls[k + 1] IN
